@@ -430,6 +430,35 @@ def r07_8_annotation_inverse(ctx):
     ctx.require_min("R07.8", 20)
 
 
+def r19_6_index_tuple_output_type(ctx):
+    ctx.rule("R19.6", "a tuple member is only ever decoded into a value of the member's own type: _index_tuple refuses an output whose type spec differs from the member's - whatever the two kinds are (a Bool output for an integer, string or tuple member included, where the bit-addressed fast path would otherwise read one bit of the member)")
+    W = AbiWorld(ctx)
+    f = ctx.model.find_func("_index_tuple", "pyteal.ast.abi.tuple")
+    ctx.analysed(f.fq)
+    kinds = [("bool",), ("uint", 8), ("uint", 64), ("string",), ("sarr", ("byte",), 3), ("tuple", (("bool",), ("uint", 16)))]
+    BoolCls = Sym("class:Bool", attrs={"classname": "Bool"})
+
+    def extra(e, me):
+        if u(e) == "Bool":
+            return BoolCls
+        raise Unknown()
+
+    for member in kinds:
+        members = [("uint", 16), member, ("bool",), ("string",)]
+        specs = [W.spec(m) for m in members]
+        for out_shape in kinds:
+            out = _output(W, out_shape)
+            out.attrs["$type"] = BoolCls if out_shape == ("bool",) else Sym("class:Other", attrs={"classname": "Other"})
+            try:
+                W.run(f.node, {"value_types": specs, "encoded": Rec("name", "ENCODED"), "index": 1, "output": out}, extra, f.fq)
+                outcome = "accepted"
+            except Raised as r:
+                outcome = "refused"
+            want = "accepted" if out_shape == member else "refused"
+            ctx.check(outcome == want, "R19.6", f"_index_tuple[member {arc4.sig(member)} into {arc4.sig(out_shape)}]", f"decoding a {arc4.sig(member)} member into a {arc4.sig(out_shape)} value is {outcome}; expected {want}", f.where, fact={"outcome": outcome})
+    ctx.require_min("R19.6", 36)
+
+
 def run(ctx):
     r07_1_index_tuple(ctx)
     r07_2_decoders(ctx)
@@ -439,6 +468,7 @@ def run(ctx):
     r07_6_access_buildable(ctx)
     r07_7_annotation_roundtrip(ctx)
     r07_8_annotation_inverse(ctx)
+    r19_6_index_tuple_output_type(ctx)
     from rules import c06 as _c06, c04 as _c04
 
     _c06.r06_1_descriptors(ctx)  # static lengths / dynamic-ness the walkers rely on (shared with C06)
